@@ -146,7 +146,7 @@ func NewRunHarness(rec *Recorder, cfg RunCfg) *RunHarness {
 	cc.MaxRpmDiffForSettledFan = 20
 	cc.FanResponseDelay = cfg.FanResponseDelay
 	cc.TempSensorPollingRate = 200 * time.Millisecond
-	cc.TempRollingWindowSize = 10
+	cc.TempRollingWindowSize = 37 // (never equal to the RPM window: the two options are independent)
 	cc.RpmPollingRate = time.Duration(cfg.RpmPollMs) * time.Millisecond
 	cc.RpmRollingWindowSize = cfg.Window
 	cc.ControllerAdjustmentTickRate = time.Duration(cfg.TickMs) * time.Millisecond
